@@ -1114,7 +1114,7 @@ func (c *specCtx) applySpecVals(sf *SpecFunc, vals []Val) Val {
 	if !sf.Rec {
 		v := c.bodyCtx(sf, vals).eval(sf.Body)
 		// name large ground integer results (let-naming): keeps offsets small and syntactically shared
-		if iv, ok := v.(VInt); ok && !iv.T.IsConst() && iv.T.Op != "var" && len(iv.T.Key()) > 160 && !hasBound([]*Term{iv.T}, c.bound) && !c.noUnfold {
+		if iv, ok := v.(VInt); ok && !iv.T.IsConst() && iv.T.Op != "var" && len(iv.T.Key()) > 160 && !hasBound([]*Term{iv.T}, c.bound) && !c.noUnfold && !isIteConstTree(iv.T) {
 			k := "name:" + iv.T.Key()
 			if c.e.named == nil {
 				c.e.named = map[string]*Term{}
